@@ -191,10 +191,16 @@ KINDS = ["valid", "valid", "valid", "pushdata", "nonjumpdest", "oob", "oob-far",
          "computed-bad", "zero", "truncated-tail", "last-byte", "pc-relative", "codesize-relative"]
 
 
-def controlflow(rng, underflow_p=0.0, symbolic_p=0.0, big_stack_p=0.0):
-    a = evm.Asm()
+def controlflow(rng, underflow_p=0.0, symbolic_p=0.0, big_stack_p=0.0, far_p=0.02):
+    # a few programs live behind 64 KiB of padding: every jump target then needs three bytes
+    far = rng.random() < far_p
+    a = evm.Asm(label_width=3 if far else 2)
+    if far:
+        a.jump("FAR0")
+        a.emit(bytes([rng.choice([0x00, 0xfe, 0x5b])]) * rng.choice([65536, 65600, 70000]))
+        a.label("FAR0")
     nblocks = rng.randint(2, 7)
-    feats = set()
+    feats = {"far-code"} if far else set()
     canaries = []
     has_jd = {i: (rng.random() < 0.75) for i in range(1, nblocks + 1)}
 
@@ -226,9 +232,9 @@ def controlflow(rng, underflow_p=0.0, symbolic_p=0.0, big_stack_p=0.0):
                 a.push_label("END")
                 need_end.append(1)
         elif kind == "nonjumpdest":
-            a.push_expr(lambda L, n=name: L[n] + 1, 2)
+            a.push_expr(lambda L, n=name: L[n] + 1, a.label_width)
         elif kind == "oob":
-            a.push_expr(lambda L: L["__len__"] + rng_k, 2)
+            a.push_expr(lambda L: L["__len__"] + rng_k, a.label_width)
         elif kind == "oob-far":
             a.push_expr(lambda L: 0xffff, 2)
         elif kind == "big32":
@@ -243,7 +249,7 @@ def controlflow(rng, underflow_p=0.0, symbolic_p=0.0, big_stack_p=0.0):
             a.emit(rng.choice([("push", 0, 1), 4, 36]), "CALLDATALOAD")
         elif kind == "computed-valid":
             c = rng.randint(1, 9)
-            a.push_expr(lambda L, n=name, c=c: L[n] - c, 2)
+            a.push_expr(lambda L, n=name, c=c: L[n] - c, a.label_width)
             a.emit(c, "ADD")
         elif kind == "pc-relative":
             # PC + constant: the library knows PC concretely, so this folds to a constant target
@@ -251,14 +257,14 @@ def controlflow(rng, underflow_p=0.0, symbolic_p=0.0, big_stack_p=0.0):
             pn = "PC%d" % len(pcs)
             a.mark(pn)
             a.emit("PC")
-            a.push_expr(lambda L, n=name, pn=pn: L[n] - L[pn], 2)
+            a.push_expr(lambda L, n=name, pn=pn: L[n] - L[pn], a.label_width)
             a.emit("ADD")
         elif kind == "codesize-relative":
-            a.push_expr(lambda L, n=name: L["__len__"] - L[n], 2)
+            a.push_expr(lambda L, n=name: L["__len__"] - L[n], a.label_width)
             a.emit("CODESIZE", "SUB")
         elif kind == "computed-bad":
             c = rng.randint(1, 9)
-            a.push_expr(lambda L, n=name, c=c: L[n] + 1 - c, 2)
+            a.push_expr(lambda L, n=name, c=c: L[n] + 1 - c, a.label_width)
             a.emit(c, "ADD")
         feats.add("target:" + kind)
 
